@@ -150,7 +150,7 @@ func (txnPoliciesAccessor *TxnPoliciesAccessor) UpdatePoliciesData(
 
 	shouldUnmanageGlobal := previousHAProxyEndpoints.ManageAll && !newHAProxyEndpoints.ManageAll
 
-	haproxyEndpointsToRemove, _ := lo.Difference(
+	haproxyEndpointsToRemove := EndpointsToUnmanage(
 		previousHAProxyEndpoints.ManagedEndpoints,
 		newHAProxyEndpoints.ManagedEndpoints,
 	)
